@@ -90,6 +90,8 @@ func genC14(cfg runCfg, e *emitter, rng *rand.Rand) {
 				}
 				// AddProof: canonical proof of the union, hashes ordered by position
 				hh, pc := u.AddProof(pa, pb, A, B, rf.n())
+				e.line("PO AddProof %s %s %s %s %s %s %d = %s %s %s", us(pa.Targets), hs(pa.Proof), us(pb.Targets), hs(pb.Proof), hs(A), hs(B), rf.n(),
+					hs(hh), us(pc.Targets), hs(pc.Proof))
 				e.line("CACHED addproof %s %s %s %s", hs(sortedSet(um)), hs(hh), us(pc.Targets), hs(pc.Proof))
 				e.count("addproof")
 				// GetProofSubset: wants = random subset of A, permuted
@@ -102,6 +104,11 @@ func genC14(cfg runCfg, e *emitter, rng *rand.Rand) {
 					wp = append(wp, pa.Targets[i])
 				}
 				rh, rp, err := u.GetProofSubset(pa, A, wp, rf.n())
+				if err != nil {
+					e.line("PO GetProofSubset %s %s %s %s %d = err", us(pa.Targets), hs(pa.Proof), hs(A), us(wp), rf.n())
+				} else {
+					e.line("PO GetProofSubset %s %s %s %s %d = ok %s %s %s", us(pa.Targets), hs(pa.Proof), hs(A), us(wp), rf.n(), hs(rh), us(rp.Targets), hs(rp.Proof))
+				}
 				if err != nil {
 					e.line("PROVE subset %s err", hs(W))
 				} else {
@@ -127,6 +134,7 @@ func genC14(cfg runCfg, e *emitter, rng *rand.Rand) {
 				D := pick()
 				pd, _ := rf.prove(D)
 				got := u.GetMissingPositions(rf.n(), append([]uint64{}, pa.Targets...), append([]uint64{}, pd.Targets...))
+				e.line("PO GetMissingPositions %d %s %s = %s", rf.n(), us(pa.Targets), us(pd.Targets), us(got))
 				e.line("MISSING fn %s %s %s", hs(A), hs(D), us(got))
 				e.count("missing_fn")
 				// supplying the true hashes at the missing positions completes a verifying proof
